@@ -71,6 +71,9 @@ def install(w):
 
     def int_min_f(ex, c, a):
         x, y = deref(a[0]), deref(a[1])
+        if isinstance(a[0], Ref) and isinstance(x, Int):
+            # Ord::min on references returns one of the references
+            return a[0] if ex.branch(ex.binop('Le', x, y), 'min by ref') else a[1]
         if isinstance(x, Int) and isinstance(y, Int):
             return ite_int(ex.binop('Le', x, y), x, y)
         # general Ord::min: fork
@@ -78,6 +81,8 @@ def install(w):
 
     def int_max_f(ex, c, a):
         x, y = deref(a[0]), deref(a[1])
+        if isinstance(a[0], Ref) and isinstance(x, Int):
+            return a[0] if ex.branch(ex.binop('Gt', x, y), 'max by ref') else a[1]
         if isinstance(x, Int) and isinstance(y, Int):
             # Ord::max returns the second argument when equal
             return ite_int(ex.binop('Gt', x, y), x, y)
